@@ -90,6 +90,8 @@ def nested(a):
 def do_case(ctx, inp):
     if "cic" in inp:
         return do_cic(ctx, inp)
+    if inp.get("derived"):
+        return do_derived_case(ctx, inp)
     a = inp["ast"]
     o = build(a)
     t = snap(o)
@@ -301,7 +303,44 @@ def small_scope():
     yield from level(leaves + l1[::7])
 
 
+def do_derived_case(ctx, inp):
+    """Not / negate / Imply whose argument is the OUTPUT of another operation (assume, reduce, a round trip): the connective
+    has its documented truth function of the argument's truth value — the argument evaluated on its own (no Lean build op:
+    the argument is not a constructor expression)"""
+    a = inp["ast"]
+    o = build(a)
+    t = snap(o)
+    lv = leaves_of(t)
+    ctx.case(inp, nontrivial=True, tags={"connective-over-derived-argument", "via-" + a["via"], "arg-via-" + str(a["arg"].get("via"))})
+    n = 0
+    for sigma in assignments(ctx.rng, lv, 256 if ctx.quick else 2048):
+        want = expected_by_argument(a, sigma)
+        if want is None:
+            continue
+        n += 1
+        got = o.evaluate(dict(sigma)).constant
+        if got is None or int(got) != want:
+            ctx.fail("connective-over-derived-argument-has-another-truth-function",
+                     {"via": a["via"], "sigma": sigma, "evaluate": None if got is None else int(got), "truth_function_of_the_argument": want, "model": t})
+            return
+    if not n: ctx.tags["derived-argument-never-constant"] += 1
+
+
 def run(ctx):
+    for _ in range((120 if ctx.quick else 800) * (3 if ctx.search else 1)):
+        try:
+            a, o, t = gen_derived(ctx.rng, ctx.quick, chain_p=0.6, vias=["assume", "assume+reduce", "reduce", "json", "deepcopy", "negate", "Not", "Imply", "ImplyCons"],
+                                  classes=PLOG, bool_only=True)
+        except RuntimeError:
+            break
+        if a["via"] not in ("negate", "Not", "Imply", "ImplyCons"):
+            a = {"c": "$derive", "via": ctx.rng.choice(["Not", "negate", "Imply", "ImplyCons"]), "arg": a, "other": "zq"}
+            try:
+                o = build(a)
+                if is_var(o) or not well_formed(snap(o)) or o.errors(): continue
+            except Exception:
+                continue
+        do_derived_case(ctx, {"ast": a, "derived": True})
     n = (400 if ctx.quick else 2500) * (3 if ctx.search else 1)
     for _ in range(n):
         a, o, t = gen_valid(ctx.rng, ctx.quick, classes=PLOG, bool_only=True)
